@@ -1032,3 +1032,69 @@ def rule_Q8(F, R):
         R.violation("Q8", target["owner_fn"], "blank-tail-not-trimmed", "the in-memory set_working_set_item can return successfully without dropping trailing blanks: after blanking the last entry the next add_to_working_set in the same transaction gets the index after the blank, while SQLite reuses it", where(target))
     else:
         R.ok("Q8", "in-memory set_working_set_item trims trailing blanks before returning", where(target))
+
+
+def rule_Q9(F, R):
+    R.begin("Q9", "read-only means read-only on disk too: opening a SQLite store with AccessMode::ReadOnly runs the schema upgrade only when the database file did not exist (a fresh, empty database has to be created to be readable at all); an existing database of an older schema is left exactly as it is. And the count of unsynchronised operations counts rows, not a nullable column (UndoPoint operations have no uuid)")
+    opener = None
+    for p_, b in F.bodies.items():
+        if "storage::sqlite" in p_ and b["kind"] in ("Fn", "AssocFn") and any(any(re.search(r"rusqlite::Connection::open", x) for x in call_names(t)) for (_i, t) in F.calls_in.get(p_, ())):
+            opener = b
+    if opener is None:
+        R.missing("Q9", "the function that opens the SQLite connection")
+    else:
+        c = cfg_of(opener)
+        paths = SymExec(opener, c, max_paths=8000).run()
+        nup = 0
+        bad = None
+        for pth in paths:
+            ups = [e for e in pth.events if re.search(r"schema::upgrade_db$", e["callee"])]
+            if not ups:
+                continue
+            nup += 1
+            req_ro = None
+            exists = None
+            # the engine does not know that two different variants exclude each other: drop paths on which the
+            # requested mode is established to equal two different variants
+            eqs = {}
+            for (a, o, _bb) in pth.atoms:
+                if a[0] == "call" and re.search(r"PartialEq::(eq|ne)$", a[1]) and _has(a[2], lambda v: v == ("P", "access_mode")):
+                    for v in a[2]:
+                        if v[0] == "A":
+                            eqs[v[2]] = bool(o) if a[1].endswith("::eq") else (not o)
+            if len([k for k, v in eqs.items() if v]) > 1:
+                continue
+            for (a, o, _bb) in pth.atoms:
+                if a[0] == "call" and re.search(r"PartialEq::(eq|ne)$", a[1]) and _has(a[2], lambda v: v == ("P", "access_mode")) and _has(a[2], lambda v: v[0] == "A" and v[2] == "ReadOnly"):
+                    val = bool(o) if a[1].endswith("::eq") else (not o)
+                    req_ro = val if req_ro is None else req_ro
+                if a[0] in ("call", "call#") and any(isinstance(x, str) and x.endswith("Path::exists") for x in a):
+                    exists = bool(o)
+            if req_ro is True and exists is not False:
+                bad = pth
+        if nup == 0:
+            R.missing("Q9", "a path of the opener that runs schema::upgrade_db")
+        elif bad is not None:
+            R.violation("Q9", opener["path"], "read-only-open-upgrades-existing-db", "a store requested ReadOnly can run the schema upgrade although the database file exists: an older-schema database is rewritten in place (tables altered, version row written) by a read-only open", where(opener, bad.blocks[-1]))
+        else:
+            R.ok("Q9", "ReadOnly opens upgrade only a database that did not exist (%d upgrading paths examined)" % nup, where(opener))
+    import roles
+    im = sqlite_txn_impl(F)
+    b = None
+    if im:
+        for it in im["items"]:
+            if it["name"] == "num_unsynced_operations":
+                b = F.real_body(it["path"])
+    if b is None:
+        R.missing("Q9", "the SQLite transaction's num_unsynced_operations")
+        return
+    sq = [" ".join(sv.split()) for (_i, sv) in roles.sql_in_body(F, b) if re.search(r"\bcount\s*\(", sv, re.I)]
+    if not sq:
+        R.missing("Q9", "the COUNT statement of num_unsynced_operations")
+        return
+    m = re.search(r"count\s*\(\s*([^)]*?)\s*\)", sq[0], re.I)
+    arg = m.group(1).lower() if m else "?"
+    if arg in ("*", "1", "id"):
+        R.ok("Q9", "num_unsynced_operations counts rows: %s" % sq[0][:80], where(b))
+    else:
+        R.violation("Q9", b["owner_fn"], "count-of-nullable-column:" + arg, "num_unsynced_operations counts `%s`, which is NULL for operations without a task (UndoPoint): the count is smaller than the number of unsynchronised operations and than the in-memory storage's" % arg, where(b))
